@@ -690,9 +690,49 @@ def _poll_loop(h):
     h.cover("poll loop explored")
 
 
+def _init_machine_lemma(h, g):
+    """Init-machine lemma (DESIGN.md 3.4, finite: decided by exhaustive enumeration).  The transition table that
+    `_message_received` / `_connection_changed` are proved to implement is a strict chain: whatever frames arrive
+    in whatever order, the only way from CONNECTING to CONNECTED is through the six steps in the fixed order, each
+    step sending exactly the next request; no frame moves the machine backwards, skips a step or leaves CONNECTED."""
+    if not h.symbolic:
+        return
+    ist = init_states(g)
+    order = ["CLOSED", "CONNECTING"] + ist + ["CONNECTED"]
+    shapes_ = sorted(shapes(h, g).keys())
+    edges = {}
+    for st in order:
+        for sh in shapes_:
+            for to in (True, False):
+                nxt, req, proc, done = expected(g, st, sh, to)
+                if nxt != st:
+                    edges.setdefault(st, set()).add((nxt, req, done))
+    h.oblige("frames never move CLOSED, CONNECTING or CONNECTED (only a connection starts, only shutdown ends a session)",
+             not any(s in edges for s in ("CLOSED", "CONNECTING", "CONNECTED")))
+    ok_chain = all(edges.get(ist[i]) == {(ist[i + 1] if i < 5 else "CONNECTED", STEPS[i + 1] if i < 5 else None, i == 5)} for i in range(6))
+    h.oblige("every handshake state has exactly one successor: the next state of the fixed order, entered with exactly the next "
+             "request (the last step completes initialisation and sends nothing)", ok_chain)
+    # all maximal paths of state-changing transitions from INIT_VERSION
+    paths, todo = [], [("INIT_VERSION", ["ver"])]
+    while todo:
+        st, reqs = todo.pop()
+        if st not in edges or len(reqs) > 12:
+            paths.append((st, reqs))
+            continue
+        for nxt, req, done in edges[st]:
+            todo.append((nxt, reqs + ([req] if req else [])))
+    h.oblige("every run of the machine that reaches CONNECTED has sent the six requests once each in the fixed order "
+             "(version, names, abilities, AC status, timer status, zone/group status)",
+             bool(paths) and all(st == "CONNECTED" and reqs == STEPS for st, reqs in paths))
+    h.cover("transition table enumerated")
+
+
 def _register(g):
     n = f"at{g}.airtouch"
     G = GEN[g]
+    oset(n + ".init-machine-lemma", ["C09"], [_fn(g, "_message_received"), _fn(g, "_connection_changed")], kind="lemma",
+         assumptions=["lemma over the transition table of the _message_received / _connection_changed contracts (finite, enumerated completely)"])(
+             lambda h: _init_machine_lemma(h, g))
     oset(n + "._message_received", ["C09", "C10", "C14", "C02"], [_fn(g, "_message_received")])(lambda h: _message_received(h, g))
     oset(n + "._connection_changed", ["C14", "C09", "C02"], [_fn(g, "_connection_changed")])(lambda h: _connection_changed(h, g))
     oset(n + ".init", ["C09", "C15"], [_fn(g, "init"), _fn(g, "initialised")],
@@ -706,7 +746,7 @@ def _register(g):
     oset(n + ".dispatch", ["C10", "C09"], [_fn(g, "_process_ac_status_message"), _fn(g, "_process_ac_timer_status_message"),
                                            _fn(g, G["p_zstatus"]), _fn(g, "_process_ac_error_info_message")],
          bounded="0..3 records per frame, entity ids 0..3")(lambda h: _dispatch(h, g))
-    oset(n + ".dispatch-any-length", ["C10", "C09", "C14"], [_fn(g, "_process_ac_status_message"), _fn(g, "_process_ac_timer_status_message"),
+    oset(n + ".dispatch-any-length", ["C10", "C09", "C12", "C14"], [_fn(g, "_process_ac_status_message"), _fn(g, "_process_ac_timer_status_message"),
                                                               _fn(g, G["p_zstatus"])])(lambda h: _dispatch_any(h, g))
     oset(n + ".build-model", ["C09"], [_fn(g, G["p_names"]), _fn(g, "_process_ac_ability_message")],
          bounded="installations enumerated: 0..3 zones, 1..2 ACs, bitmap / single-AC / range layouts",
